@@ -4,7 +4,12 @@
    find_markers_for_all_taxonomy_pairs, create_marker_gene_lookup_from_ref_list).
 
    Paths are lists of integer components (the harness renames every path component
-   to an integer).  The file system maps a path to (kind, content id).  A run is
+   to an integer).  There are NO SYMBOLIC LINKS among the modelled paths: a path is what
+   pathlib.Path(x).resolve() gives, every operation acts on the entry it names.  (Real code on
+   a symbolic link differs: exists() and open() follow a link, unlink() removes the link
+   itself -- run_mapping's probe on a requested output that is a dangling link leaves 'junk'
+   at the link target: finding F30, harness/props/c19.py history_symlink.)
+   The file system maps a path to (kind, content id).  A run is
    described by its declared inputs, declared outputs, scratch root, query file and
    whether results are to be stored in the query file (obsm_key set).
 
@@ -468,6 +473,63 @@ Fixpoint prun (c : config) (pg : program) (fuel : nat) (f : fs) (b : bk) (h : li
 (* the run of a program is accepted: it returned within the fuel *)
 Definition paccept (c : config) (pg : program) (fuel : nat) (f : fs) (g : fs) (t : list op) (h : list obs) : Prop :=
   exists b, prun c pg fuel f bk0 [] = Ok (g, b, t, h) /\ b_done b = true.
+
+(* ---- probing programs (audit defect A8): stale independence UP TO PROBES ----
+   run_mapping looks whether an output exists and, when it does not, probes the path:
+     if not pth.exists(): open(pth, 'w').write('junk'); pth.unlink()
+   This is the one place where a real stage branches on whether an earlier run left an
+   output.  A probing program is a CORE that cannot see the answer of a Stat on a set O' of
+   declared outputs, wrapped so that a Stat the core FLAGS is followed by the probe when the
+   answer was "absent".
+     pcore            the erased history of observations -> (next operation, "probe this Stat")
+                      (the flag means something only when the operation is `Stat p _`, p in O')
+     wrapP O' cid cr  the program: a left-to-right fold over the full history with state
+                      (erased history, pending probe operations); the answer of a Stat on O'
+                      enters the erased history masked as `OKind PExists`; the observations
+                      of the probe operations do not enter it at all
+     erase O' t       a trace without what may differ: every `Stat p _` with p in O' and every
+                      adjacent pair `Create p _ _ :: Unlink p` with p in O' *)
+Definition pcore := list obs -> op * bool.
+
+(* a Stat whose answer the core does not see *)
+Definition hidden (O' : list path) (o : op) : bool :=
+  match o with Stat p _ => mem p O' | _ => false end.
+Definition is_absent (x : obs) : bool :=
+  match x with OKind PAbsent => true | _ => false end.
+
+(* state: (erased history, pending operations); x is what the operation just issued returned *)
+Definition pfeed (O' : list path) (cid : Z) (cr : pcore) (s : list obs * list op) (x : obs)
+  : list obs * list op :=
+  match snd s with
+  | _ :: r => (fst s, r)
+  | [] =>
+      match cr (fst s) with
+      | (Stat p _, fl) =>
+          if mem p O'
+          then (fst s ++ [OKind PExists],
+                if fl && is_absent x then [Create p true cid; Unlink p] else [])
+          else (fst s ++ [x], [])
+      | _ => (fst s ++ [x], [])
+      end
+  end.
+Definition pnext (cr : pcore) (s : list obs * list op) : op :=
+  match snd s with o :: _ => o | [] => fst (cr (fst s)) end.
+Definition pstate (O' : list path) (cid : Z) (cr : pcore) (h : list obs) : list obs * list op :=
+  fold_left (pfeed O' cid cr) h ([], []).
+Definition wrapP (O' : list path) (cid : Z) (cr : pcore) : program :=
+  fun h => pnext cr (pstate O' cid cr h).
+
+Fixpoint erase (O' : list path) (t : list op) : list op :=
+  match t with
+  | [] => []
+  | o :: t' =>
+      match o, t' with
+      | Stat p _, _ => if mem p O' then erase O' t' else o :: erase O' t'
+      | Create p _ _, Unlink q :: t'' =>
+          if mem p O' && path_eqb p q then erase O' t'' else o :: erase O' t'
+      | _, _ => o :: erase O' t'
+      end
+  end.
 
 (* ---- wire ---- *)
 Definition sx_path : sx -> option path := sx_LZ.
